@@ -533,6 +533,7 @@ type VerifWorld struct {
 	sinkMu       sync.Mutex
 	sinkDials    int
 	trackers     []*verifTracker
+	stubs        []*verifWsStub // scripted web seeds (zz_verif_wsloop.go); empty unless `new … webseeds=<n>`
 }
 
 func (w *VerifWorld) startSink() {
@@ -703,6 +704,9 @@ func VerifNewWorld(op string) (*VerifWorld, string) {
 		}
 		meta["announce-list"] = al
 	}
+	if n := verifAtoi(m["webseeds"], 0); n > 0 {
+		meta["url-list"] = w.wsSetup(n)
+	}
 	tb, err := bencode.EncodeBytes(meta)
 	if err != nil {
 		return nil, "bad-op:" + err.Error()
@@ -747,6 +751,7 @@ func VerifNewWorld(op string) (*VerifWorld, string) {
 	cfg.ResumeWriteInterval = time.Hour
 	cfg.RequestTimeout = time.Hour // snubs are injected, never timed
 	cfg.PeerHandshakeTimeout = time.Hour
+	cfg.WebseedResponseBodyReadTimeout = time.Hour // a stalled web seed is scripted, never timed
 	cfg.MaxOpenFiles = 0
 	cfg.DisableOutgoingEncryption = true
 	cfg.PrivatePeerIDPrefix = "-PV0001-"
@@ -792,6 +797,10 @@ func VerifNewWorld(op string) (*VerifWorld, string) {
 			cfg.MaxPeerAddresses = n
 		case "ForceIncomingEncryption":
 			cfg.ForceIncomingEncryption = n != 0
+		case "WebseedMaxDownloads":
+			cfg.WebseedMaxDownloads = n
+		case "WebseedMaxSources":
+			cfg.WebseedMaxSources = n
 		}
 	}
 	s, err := NewSession(cfg)
@@ -800,6 +809,10 @@ func VerifNewWorld(op string) (*VerifWorld, string) {
 		return nil, "bad-op:session:" + err.Error()
 	}
 	w.sess = s
+	if len(w.stubs) > 0 {
+		// the real web seed downloaders of the torrent talk to the scripted stubs, no socket is opened
+		s.webseedClient.Transport = &verifWsTransport{w: w}
+	}
 	opt := &AddTorrentOptions{Stopped: true, Sequential: m["seq"] == "1", StopAfterDownload: m["stopafter"] == "1", StopAfterMetadata: m["stopaftermeta"] == "1"}
 	var tor *Torrent
 	if m["magnet"] == "1" {
@@ -937,7 +950,18 @@ func (w *VerifWorld) call(f func()) bool {
 		return true
 	case <-time.After(5 * time.Second):
 		w.dead = true
+		verifDumpStacks()
 		return false
+	}
+}
+
+// verifDumpStacks keeps the goroutine stacks of a loop that stopped responding (VERIF_DUMP_DIR): they are the
+// evidence of the hang.
+func verifDumpStacks() {
+	if d := os.Getenv("VERIF_DUMP_DIR"); d != "" {
+		buf := make([]byte, 4<<20)
+		n := runtime.Stack(buf, true)
+		_ = os.WriteFile(filepath.Join(d, fmt.Sprintf("hang-%d-%d.txt", os.Getpid(), time.Now().UnixNano()%1000000)), buf[:n], 0o644)
 	}
 }
 
@@ -950,12 +974,7 @@ func (w *VerifWorld) barrier() (Stats, error) {
 		return st, nil
 	case <-time.After(5 * time.Second):
 		w.dead = true
-		if d := os.Getenv("VERIF_DUMP_DIR"); d != "" {
-			// keep the goroutine stacks of a loop that stopped responding: they are the evidence of the hang
-			buf := make([]byte, 4<<20)
-			n := runtime.Stack(buf, true)
-			_ = os.WriteFile(filepath.Join(d, fmt.Sprintf("hang-%d-%d.txt", os.Getpid(), time.Now().UnixNano()%1000000)), buf[:n], 0o644)
-		}
+		verifDumpStacks()
 		return Stats{}, errVerifHang
 	}
 }
@@ -987,6 +1006,12 @@ func (w *VerifWorld) settle() error {
 			tr.mu.Unlock()
 		}
 		sig := fmt.Sprint(st0.Status, sops, treqs, t.allocator != nil, t.verifier != nil, t.stoppedEventAnnouncer != nil, len(t.announcers))
+		if len(w.stubs) > 0 {
+			sig += fmt.Sprint(" ", w.wsSteps())
+			if w.wsBusy() {
+				busy = true // a web seed downloader is on its way to its stub or to the loop
+			}
+		}
 		if t.allocator != nil && bo == 0 {
 			busy = true
 		}
@@ -1255,6 +1280,7 @@ func (w *VerifWorld) observe() string {
 	if sl := w.sto.drain(); len(sl) > 0 {
 		fmt.Fprintf(&sb, " sto=%s", strings.Join(sl, ","))
 	}
+	w.observeWs(&sb)
 	return sb.String()
 }
 
@@ -1559,6 +1585,9 @@ func (w *VerifWorld) Op(op string) string {
 			return "hang"
 		}
 	default:
+		if o, ok := w.opWs(name, m); ok {
+			return o
+		}
 		return "bad-op"
 	}
 	return w.observeAfterSettle()
@@ -1813,7 +1842,7 @@ func (w *VerifWorld) opPiece(p *verifPeer, m map[string]string) string {
 		w.deferredMu.Lock()
 		nd := w.deferred
 		w.deferredMu.Unlock()
-		if nd > 0 {
+		if nd > 0 || w.wsPending() > 0 {
 			buf.Release()
 			return "skipped:already-deferred " + w.observeAfterSettle()
 		}
